@@ -40,6 +40,7 @@ Section ValInd.
   Hypothesis HMap : forall l, Forall (fun e => P (fst e) /\ P (snd e)) l -> P (VMap l).
   Hypothesis HLam : forall c, P (VLambda c).
   Hypothesis HTicket : forall a ep x z, P x -> P (VTicket a ep x z).
+  Hypothesis HBigMapId : forall id, P (VBigMapId id).
 
   Fixpoint val_ind' (v : val) : P v :=
     match v with
@@ -62,6 +63,7 @@ Section ValInd.
                    end) l)
     | VLambda c => HLam c
     | VTicket a ep x z => HTicket a ep x z (val_ind' x)
+    | VBigMapId id => HBigMapId id
     end.
 End ValInd.
 
@@ -275,6 +277,7 @@ Section PackProofs.
       cbn [Pack.lambda_plain] in Hp. apply node_eqb_spec in Hp.
       change (to_mich Optimized (VLambda c)) with c. rewrite <- Hp at 2. constructor.
     - (* ticket: not packable, outside lambda_plain *) discriminate Hp.
+    - (* big_map id: not packable, outside lambda_plain *) discriminate Hp.
   Qed.
 
   Lemma pack_shape t v :
